@@ -100,7 +100,21 @@ impl World for Reactions {
                 (100.0 + k as f64, f)
             })
             .collect();
-        ReactionCase { reaction, molecules, reactants, products, buffer: *g.pick(&[0.0, 0.01, 1.0, 100.0]), lr: g.f64_in(0.0, 0.99), seed: g.u64() }
+        let mut c = ReactionCase { reaction, molecules, reactants, products, buffer: *g.pick(&[0.0, 0.01, 1.0, 100.0]), lr: g.f64_in(0.0, 0.99), seed: g.u64() };
+        // the unit energies are measured in is arbitrary: a quarter of the cases use tiny or huge
+        // units (every energy, surplus and share is then far below f64::EPSILON, or far above 1)
+        if g.chance(0.25) {
+            let unit = *g.pick(&[1e-20, 1e-17, 1e-12, 1e15]);
+            for m in c.molecules.iter_mut() {
+                m.1 *= unit;
+                m.2 *= unit;
+            }
+            for p in c.products.iter_mut() {
+                p.1 *= unit;
+            }
+            c.buffer *= unit;
+        }
+        c
     }
 
     fn execute(&self, c: &ReactionCase) -> Outcome<ReactionCase> {
